@@ -12,5 +12,8 @@ TEXT = {
     "C09": {"technique": "stateful property-based testing (rapid) with injected restarts; differential oracle against a never-restarted twin instance",
             "level_text": "exploration: generated histories in which the node object is dropped and re-created on the same storage at drawn block boundaries (also several times in a row); a twin that never restarts receives the same requests. Every response, app hash and query result must be identical.",
             "level_note": "storage is tm-db MemDB kept across restarts (the same DB interface the node uses with LevelDB); restarts are only inserted after the first committed block; histories end if the validator set becomes empty (Tendermint cannot continue there)."},
+    "C08": {"technique": "stateful property-based testing (rapid); differential oracle between independent instances in-process and across processes (recorded scenario replay under different GOMAXPROCS/GOGC)",
+            "level_text": "exploration: the same generated request sequence is executed by two instances in one process (Go randomises map iteration per range statement, so order dependence shows as diverging app hashes) and, for a sample, by three further processes with other scheduler/GC settings; all deterministic response fields and app hashes must match.",
+            "level_note": "goroutine scheduling inside one block execution is not controlled; the node executes blocks on one goroutine."},
 }
 NOT_APPLICABLE = {}
